@@ -7,9 +7,13 @@ Expectation (from the source workbook only; bounded.corpus.sv_* helpers):
    (relevant, required, readonly, constraint, calculate, jr:constraintMsg, jr:requiredMsg,
    jr:noAppErrorString, bind::x under any alias / column order) and the parameter-derived bind attributes
    (audit odk:*, image orx:max-pixels, audio odk:quality, geo odk:allow-mock-accuracy, save_to);
- * values equal the cell text after ${ref} substitution (any XPath ending in /ref is accepted, the right
-   path is C03's business) and yes/no -> true()/false(); translated messages (and messages with ${ref})
-   are carried by a jr:itext() reference;
+ * values equal the cell text after ${ref} substitution and yes/no -> true()/false(); translated messages (and
+   messages with ${ref}) are carried by a jr:itext() reference.  "After reference substitution" is taken from the
+   source workbook alone (class RefText): each ${name} whose name designates exactly one node of the survey tree is
+   replaced by an XPath that, walked from the row's own node, arrives at that node (absolute, or relative with
+   optional current()/), and that is *relative* whenever the target's innermost enclosing repeat also strictly
+   encloses the row (the XLSForm rule; indexed-repeat() arguments and ${last-saved#..} excepted).  Nothing else in
+   the form - in particular the names of unrelated rows in other sections - may change that text;
  * rows with no logic get no logic attribute, rows that produce nothing (disabled, comment, external
    instance) get no bind, and no bind exists for a node that is neither a row nor a documented generated node.
 Not demanded: where `calculate` goes on rows with a trigger (setvalue; C10), the type of rows with a bind::type
@@ -51,6 +55,76 @@ def _extra_ns(settings: dict) -> dict:
     return out
 
 
+RE_REF = re.compile(r"\$\{(last-saved#)?([^}]*)\}")
+
+
+def _walk(context: tuple, path: str):
+    """Node reached by the location path `path` (steps: names, `.`, `..`) from `context`; None if it leaves the tree
+    or is not a plain location path."""
+    path = path.strip()
+    if path.startswith("/"):
+        node, steps = (), path[1:].split("/")
+    else:
+        node, steps = tuple(context), path.split("/")
+    for st in steps:
+        if st == "..":
+            if len(node) <= 1:
+                return None
+            node = node[:-1]
+        elif st == ".":
+            continue
+        elif corpus.SV_RE_XML_NAME.match(st):
+            node = (*node, st)
+        else:
+            return None
+    return node
+
+
+class RefText:
+    """Expected value of a logic cell holding ${..} references, for the row whose node is `context`.
+    `nodes`: {name: [(path tuple, innermost enclosing repeat's path or None), ...]} for every node of the survey tree."""
+
+    def __init__(self, cell: str, context: tuple, nodes: dict):
+        self.cell, self.context, self.nodes = cell, tuple(context), nodes
+        out, pos, self.refs = [], 0, []
+        for m in RE_REF.finditer(cell):
+            out.append(re.escape(cell[pos:m.start()]))
+            nm = m.group(2).strip()
+            pre = r"(instance\('__last-saved'\))" if m.group(1) else r"((?:current\(\)/)?)"
+            out.append(r"\s*" + pre + r"((?:\.\.|/)[^\s,()\[\]='\"]*?(?<=/)" + re.escape(nm) + r")\s*")
+            self.refs.append((nm, bool(m.group(1))))
+            pos = m.end()
+        out.append(re.escape(cell[pos:]))
+        self.pattern = "^" + "".join(out) + "$"
+        self.rx = re.compile(self.pattern, re.S)
+        self.free_form = "indexed-repeat(" in cell
+
+    def problem(self, have: str):
+        """None if `have` is the cell text after reference substitution, else a short explanation."""
+        m = self.rx.match(have)
+        if m is None:
+            return "is not the cell text with each ${name} replaced by a path to name"
+        for i, (nm, last_saved) in enumerate(self.refs):
+            path = m.group(2 * i + 2)
+            targets = self.nodes.get(nm, [])
+            if len(targets) != 1:
+                continue        # not a (unique) node of the modelled tree: nothing more to say here
+            tpath, trepeat = targets[0]
+            if last_saved:
+                if _walk((), path) != tpath:
+                    return f"${{last-saved#{nm}}} became {path!r}, which is not /{'/'.join(tpath)} in the last-saved instance"
+                continue
+            if _walk(self.context, path) != tpath:
+                return (f"${{{nm}}} became {path!r}, which from /{'/'.join(self.context)} does not arrive at "
+                        f"/{'/'.join(tpath)}")
+            encloses = (trepeat is not None and len(self.context) > len(trepeat)
+                        and self.context[:len(trepeat)] == trepeat)
+            if encloses and not self.free_form and path.startswith("/"):
+                return (f"${{{nm}}} became the absolute {path!r} although the row and the target are both inside "
+                        f"the repeat /{'/'.join(trepeat)} (a relative path is due)")
+        return None
+
+
 def expected_binds(wb: WB, rootname: str):
     """({nodeset: (SRow, {attr: expected})}, generated-nodeset predicate). Expected values: str (exact),
     regex (must match), tuple of alternatives, ANY (present, value free), or the key is in `free` (may be absent)."""
@@ -59,6 +133,13 @@ def expected_binds(wb: WB, rootname: str):
     if any(k.lower() in ("flat", "add_none_option") for k in settings):
         raise corpus.SvUnsupported("flat/add_none_option")
     exp, generated = {}, set()
+    nodes: dict[str, list] = {}
+    for sr in rows:
+        if sr.kind in ("nothing", "end"):
+            continue
+        reps = [i for i, k in enumerate(sr.parent_kinds) if k == "repeat"]
+        nodes.setdefault(sr.name, []).append(
+            ((rootname, *sr.path), (rootname, *sr.parents[:reps[-1] + 1]) if reps else None))
     for sr in rows:
         if sr.kind in ("nothing", "end", "external"):
             continue
@@ -134,7 +215,7 @@ def expected_binds(wb: WB, rootname: str):
                 norm = "true()" if val in corpus.SV_YES else "false()"
                 attrs[k] = norm if k in STRICT_YESNO else (norm, val)
             elif "${" in val:
-                attrs[k] = corpus.sv_ref_regex(val)
+                attrs[k] = RefText(val, (rootname, *sr.path), nodes)
             else:
                 attrs[k] = val
         exp[nodeset] = (sr, attrs, free)
@@ -162,6 +243,8 @@ def _value_ok(want, have: str) -> bool:
         return True
     if isinstance(want, tuple):
         return have in want
+    if isinstance(want, RefText):
+        return want.problem(have) is None
     if hasattr(want, "match"):
         return bool(want.match(have))
     return have == want
@@ -170,6 +253,8 @@ def _value_ok(want, have: str) -> bool:
 def _show(want):
     if want is ANY:
         return "<any>"
+    if isinstance(want, RefText):
+        return f"the cell {want.cell!r} after reference substitution"
     if hasattr(want, "pattern"):
         return f"/{want.pattern}/"
     return repr(want)
@@ -212,6 +297,11 @@ def check(case: Case, res: Result, ctx: dict) -> list[dict]:
             if k not in got:
                 out.append(V(f"dropped:{k}", f"row {sr.idx + 2} ({kind}) {ns_}: attribute {k} (expected {_show(want)}) is missing; "
                                              f"bind has {got}"))
+            elif isinstance(want, RefText) and want.rx.match(got[k]):
+                why = want.problem(got[k])
+                if why:
+                    out.append(V(f"wrong-ref:{k}", f"row {sr.idx + 2} ({kind}) {ns_}: {k}={got[k]!r}, expected "
+                                                   f"{_show(want)}: {why}"))
             elif not _value_ok(want, got[k]):
                 out.append(V(f"wrong-value:{k}", f"row {sr.idx + 2} ({kind}) {ns_}: {k}={got[k]!r}, expected {_show(want)}"))
         for k, v in got.items():
@@ -422,6 +512,13 @@ def cases(tier: str, seed: int) -> list[Case]:
                           "relevant": "${second} = 7"},
                          mkrow("text", {}, "q11", 5, LOGIC), {"type": "end repeat"}])
 
+
+    # 6. names reused in different sections (legal as long as nobody writes ${that_name}): the bind of a row must
+    #    not depend on what unrelated rows elsewhere are called
+    out.extend(_reuse_family(tier, rnd))
+    for i in range({"quick": 150, "thorough": 3000}[tier]):
+        out.append(_random_reuse_case(rnd, i))
+
     # 5. random sparse forms
     for i in range({"quick": 500, "thorough": 6000}[tier]):
         out.append(_random_case(rnd, i))
@@ -465,3 +562,205 @@ def _random_case(rnd: random.Random, i: int) -> Case:
         rnd.shuffle(order)
     spell = {c: rnd.choice(SPELL[c]) for c in SPELL}
     return Case(f"C05-rand-{i}", wb=build(rows, order, spell), origin="C05")
+
+
+# ------------------------------------------------------------------- name reuse across sections
+
+REF_COLS = ["relevant", "required", "readonly", "constraint", "calculation", "custom", "noapp", "constraint_message",
+            "required_message"]
+
+
+def ref_cell(col: str, i: int, a: str, b: str, style: int = 0) -> str:
+    """A cell of logic column `col` that references ${a} (and, in some styles, ${b}); distinct per (col, i)."""
+    if col == "relevant":
+        return ["${%s} > %d" % (a, i), "${%s} != '' and ${%s} < %d" % (a, b, i), "%d < ${%s}" % (i, b)][style % 3]
+    if col == "required":
+        return ["${%s} = %d" % (a, i), "${%s}=${%s} or %d" % (b, a, i)][style % 2]
+    if col == "readonly":
+        return ["${%s} = %d" % (b, i), "not(${%s} > %d)" % (a, i)][style % 2]
+    if col == "constraint":
+        return [". >= ${%s}" % a, ". != ${%s} and . > ${%s} - %d" % (a, b, i), "(. > ${%s}) or (%d > ${%s})" % (b, i, a)][style % 3]
+    if col == "calculation":
+        return ["${%s} * %d" % (a, i), "if(${%s} > %d, ${%s}, 'b')" % (b, i, a), "concat(${%s}, '%d', ${%s})" % (a, i, a)][style % 3]
+    if col == "custom":
+        return ["${%s}-%d" % (a, i), "x ${%s} y ${%s} %d" % (b, a, i)][style % 2]
+    if col == "noapp":
+        return ["install ${%s} first (%d)" % (a, i), "${%s} or ${%s}: %d" % (b, a, i)][style % 2]
+    if col == "constraint_message":
+        return "at least ${%s} (%d)" % (a, i)
+    if col == "required_message":
+        return "needed when ${%s} is %d" % (b, i)
+    raise KeyError(col)
+
+
+def _referrers(prefix: str, i0: int, a: str, b: str, style: int, wname: str | None = None) -> list[dict]:
+    """Rows of several types whose logic cells reference ${a} / ${b}: one row with every column, one row per column."""
+    w = wname or f"{prefix}w"
+    rows = [{"type": "integer", "name": w, "label": "W",
+             **{c: ref_cell(c, i0, a, b, style + k) for k, c in enumerate(REF_COLS) if c != "calculation"}},
+            {"type": "calculate", "name": f"{prefix}calc", "calculation": ref_cell("calculation", i0 + 1, a, b, style)}]
+    types = ["text", "decimal", "select_one l1", "note", "date", "range", "select_multiple l1", "geopoint"]
+    for k, c in enumerate(REF_COLS):
+        if c in ("constraint_message", "required_message"):
+            continue
+        rows.append({"type": types[(k + style) % len(types)], "name": f"{prefix}w{k}", "label": f"W{k}",
+                     c: ref_cell(c, i0 + 2 + k, a, b, style + k + 1)})
+    return rows
+
+
+def _g(kind, name, *children, **cells):
+    return [{"type": f"begin {kind}", "name": name, "label": name.upper(), **cells}, *[r for ch in children for r in
+            (ch if isinstance(ch, list) else [ch])], {"type": f"end {kind}"}]
+
+
+def _q(name, t="integer", **cells):
+    return {"type": t, "name": name, "label": name.upper(), **cells}
+
+
+def _reuse_shapes(N: str, W: str, style: int):
+    """(shape name, rows) - forms in which a section called N holds (or is next to) rows with references to their
+    neighbours; W is the name of the row that carries every logic column. `top` is a top-level target."""
+    top = [_q("top"), _q("top2")]
+    inner = [_q("a"), _q("b")]
+    return [
+        ("repeat", [*top, *_g("repeat", N, *inner, _referrers("", 1, "a", "b", style, W), _referrers("t", 20, "a", "top", style))]),
+        ("group-repeat", [*top, *_g("group", "og", _q("oa"), *_g("repeat", N, *inner, _referrers("", 1, "b", "a", style, W),
+                                                            _referrers("o", 20, "oa", "b", style)))]),
+        ("repeat-repeat", [*top, *_g("repeat", "outer", _q("oa"), _q("ob"),
+                                     *_g("repeat", N, *inner, _referrers("", 1, "a", "b", style, W),
+                                         _referrers("o", 20, "oa", "a", style), _referrers("t", 40, "top2", "ob", style)),
+                                     _referrers("p", 60, "ob", "oa", style))]),
+        ("repeat-group", [*top, *_g("repeat", N, _q("ra"), *_g("group", "ig", *inner, _referrers("", 1, "a", "b", style, W),
+                                                              _referrers("r", 20, "ra", "a", style)),
+                                    _referrers("d", 40, "ra", "a", style))]),
+        ("group-in-repeat", [*top, *_g("repeat", "outer", _q("oa"), *_g("group", N, *inner,
+                                                                        _referrers("", 1, "a", "oa", style, W)),
+                                       _referrers("d", 20, "b", "oa", style))]),
+        ("outer-of-two", [*top, *_g("repeat", N, *inner, *_g("repeat", "inr", _q("ia"), _referrers("", 1, "a", "ia", style, W),
+                                                            _referrers("t", 20, "ia", "top", style)),
+                                    _referrers("d", 40, "b", "a", style))]),
+        ("repeat-group-repeat", [*top, *_g("repeat", "outer", _q("oa"), *_g("group", "mg", _q("ma"),
+                                           *_g("repeat", N, *inner, _referrers("", 1, "a", "ma", style, W),
+                                               _referrers("o", 20, "oa", "b", style))))]),
+        ("plain-group", [*top, *_g("group", N, *inner, _referrers("", 1, "a", "b", style, W), _referrers("t", 20, "top", "b", style))]),
+    ]
+
+
+def _reuse_clashes(names: list[str]):
+    """(clash name, rows before, rows after): other rows, in other sections, that carry a name of `names` again.
+    A name is reused by questions only: two sections may not share a name."""
+    n0 = names[0]
+    out = [("none", [], [])]
+    for nm in names:
+        out.append((f"q-after-{nm}", [], _g("group", "contact", _q(nm, "text"), _q("cz"))))
+        out.append((f"q-before-{nm}", _g("group", "contact", _q("cz"), _q(nm, "text", relevant="${cz} = 1")), []))
+    out.append(("q-deep", [], _g("group", "contact", *_g("repeat", "crep", _q("cz"), *_g("group", "cg", _q(n0, "decimal",
+                                                                                      constraint=". > ${cz}"))))))
+    out.append(("q-thrice", _g("group", "contact", _q(n0, "text")), _g("repeat", "crep", _q("cz"), _q(n0, "text", required="${cz} = 2"))))
+    if len(names) > 1:
+        out.append(("q-all", _g("group", "contact", *[_q(nm, "text") for nm in names]),
+                    _g("group", "contact2", *[_q(nm, "note") for nm in names[::-1]])))
+    return out
+
+
+def _reuse_family(tier: str, rnd: random.Random) -> list[Case]:
+    out = []
+    n = 0
+    for style in range(1 if tier == "quick" else 3):
+        for si in range(len(_reuse_shapes("members", "w", style))):
+            sname, rows = _reuse_shapes("members", "w", style)[si]
+            sections = [r["name"] for r in rows if r["type"].startswith("begin")]
+            # which names come back elsewhere: the section holding the referrers, another section on the path,
+            # the referring row itself
+            for clash, before, after in _reuse_clashes(["members", *[s_ for s_ in sections if s_ != "members"][:1], "w"]):
+                n += 1
+                spell = {c: SPELL[c][(n + len(c)) % len(SPELL[c])] for c in SPELL}
+                order = [*BASE, *LOGIC] if n % 3 else [*LOGIC[::-1], *BASE]
+                out.append(Case(f"C05-reuse-{sname}-{clash}-s{style}", wb=build([*before, *rows, *after], order, spell),
+                                origin="C05"))
+            # the reused name sits inside the section of that name (repeat members > group > question members)
+            sub = _g("group", "own", _q("members", "text", relevant=ref_cell("relevant", 90, "a", "top", style)))
+            k = max(i for i, r in enumerate(rows) if r["type"].startswith("end"))
+            out.append(Case(f"C05-reuse-{sname}-q-inside-own-section-s{style}",
+                            wb=build([*rows[:k], *sub, *rows[k:]], [*BASE, *LOGIC], {c: SPELL[c][0] for c in SPELL}), origin="C05"))
+            # the row that carries the logic has the name of its own section
+            _, rows2 = _reuse_shapes("members", "members", style)[si]
+            out.append(Case(f"C05-reuse-{sname}-row-named-as-its-section-s{style}",
+                            wb=build(rows2, [*BASE, *LOGIC], {c: SPELL[c][-1] for c in SPELL}), origin="C05"))
+    return out
+
+
+def _random_reuse_case(rnd: random.Random, i: int) -> Case:
+    """Random tree of groups / repeats. Referenced rows have unique names (t1, t2, ...); every other name comes from a
+    small pool, unique among siblings only (sections unique in the whole form), so names repeat across sections."""
+    pool = ["n1", "n2", "n3", "members", "w"]
+    sections_used: set[str] = set()
+    targets: list[str] = []
+    counter = [0]
+
+    def fresh_target():
+        counter[0] += 1
+        targets.append(f"t{counter[0]}")
+        return targets[-1]
+
+    def section(depth: int, taken: set) -> list:
+        rows = []
+        for _ in range(rnd.randint(2, 4) if depth else rnd.randint(3, 5)):
+            x = rnd.random()
+            if x < 0.35 and depth < 3:
+                free = [p_ for p_ in pool if p_ not in sections_used and p_ not in taken]
+                if not free:
+                    continue
+                nm = rnd.choice(free)
+                sections_used.add(nm)
+                taken.add(nm)
+                rows.append(("sec", rnd.choice(["repeat", "repeat", "group"]), nm, section(depth + 1, set())))
+            elif x < 0.6:
+                rows.append(("t", fresh_target()))
+            else:
+                free = [p_ for p_ in pool if p_ not in taken]
+                if not free:
+                    continue
+                nm = rnd.choice(free)
+                taken.add(nm)
+                rows.append(("w", nm))
+        if not any(r[0] == "t" for r in rows):
+            rows.insert(0, ("t", fresh_target()))
+        return rows
+
+    tree = section(0, set())
+    flat: list[dict] = []
+    k = [0]
+
+    def emit(rows, scope: list[str]):
+        local = [r[1] for r in rows if r[0] == "t"]
+        for r in rows:
+            k[0] += 1
+            if r[0] == "t":
+                flat.append(_q(r[1]))
+            elif r[0] == "w":
+                near = scope + local
+                a = rnd.choice(near) if rnd.random() < 0.8 else rnd.choice(targets)
+                b = rnd.choice(near) if rnd.random() < 0.6 else rnd.choice(targets)
+                cols = [c for c in REF_COLS if c != "calculation" and rnd.random() < 0.5]
+                t = rnd.choice(["integer", "text", "select_one l1", "decimal", "note", "calculate"])
+                row = _q(r[1], t, **{c: ref_cell(c, k[0], a, b, rnd.randrange(6)) for c in cols})
+                if t == "calculate":
+                    row.pop("label")
+                    row["calculation"] = ref_cell("calculation", k[0], a, b, rnd.randrange(6))
+                flat.append(row)
+            else:
+                _, kind, nm, children = r
+                cells = {}
+                if rnd.random() < 0.3 and (scope or local):
+                    cells["relevant"] = ref_cell("relevant", k[0], rnd.choice(scope + local), rnd.choice(targets), rnd.randrange(3))
+                flat.append({"type": f"begin {kind}", "name": nm, "label": nm.upper(), **cells})
+                emit(children, scope + local)
+                flat.append({"type": f"end {kind}"})
+
+    emit(tree, [])
+    order = [*BASE, *LOGIC]
+    if rnd.random() < 0.5:
+        rnd.shuffle(order)
+    spell = {c: rnd.choice(SPELL[c]) for c in SPELL}
+    return Case(f"C05-reuse-rand-{i}", wb=build(flat, order, spell), origin="C05")
